@@ -29,4 +29,54 @@ CLAIMS["C17"] = {
             "needs the configuration's empty label to have length 0 (true of both; the statement without it is false: "
             "setLcp_counterexample). Lengths > 256 are covered by the correspondence run only.",
 }
+CLAIMS["C05"] = {
+    "text": "Proved in Lean for EVERY proof value (not only generated ones), any well-formed trie with 256-bit leaves, both "
+            "configurations: generated membership proofs verify and carry the leaf's true digest; generated non-membership proofs "
+            "verify for every non-member; an accepted membership proof speaks about a real element of the tree (a leaf-shaped digest "
+            "only for a real leaf with its true value and epoch); an accepted non-membership proof is impossible for a member. The "
+            "verifiers of the pinned commit were NOT sound: kernel-checked witnesses for D8 (label unbound without sibling levels) "
+            "and D1 (non-deepest anchor), both repaired in /repo (fix: commits) and kept as regression corpus. The verifier/generator "
+            "models are tied to the Rust by comparing every generated proof and every verdict on adversarially edited proofs.",
+    "note": BASE_NOTE + "Digests are symbolic (Cfg.Lawful proved for both configurations from constructor freeness). Known finding C05-F2: "
+            "honest non-membership proof on the EMPTY tree is rejected (theorem nonmembership_complete_fails_empty; needs t != empty).",
+}
+CLAIMS["C01"] = {
+    "text": "Proved in Lean: the canonical compressed trie over a prefix-free leaf set is well defined (a well-formed trie is determined "
+            "by its leaves: wf_unique; insertion order is irrelevant: ofLeaves_perm; equal leaf sets give equal root hashes and, with "
+            "a lawful configuration, the root hash determines the trie: rootHash_injective). The refinement theorem — the code's "
+            "storage-based batch insertion computes exactly that trie with the right digests and epoch metadata — is stated "
+            "(Thm/C01b.lean) and being proved; until it is an obligation, that step rests on the correspondence run: after every "
+            "publish the real root hash is compared with the canonical root over the SPECIFICATION's leaf set (oracle), and the full "
+            "node dump with the executable model of the algorithm.",
+    "note": BASE_NOTE,
+}
+CLAIMS["C02"] = {
+    "text": "Proved in Lean (C05 completeness theorems): on any well-formed trie the generated membership proof verifies and carries the "
+            "leaf's digest, and the generated non-membership proof verifies for every absent label. That the directory's lookup "
+            "assembles these into a proof verifying to (latest epoch, version count, latest value) is decided by the correspondence "
+            "run: every real LookupProof is compared field by field with the model's and the real lookup_verify result with the "
+            "specification, for every label after every publish.",
+    "note": BASE_NOTE + "The composition theorem lookup_complete over whole histories is not yet an obligation.",
+}
+CLAIMS["C03"] = {
+    "text": "Proved in Lean: the leaf-level completeness theorems (C05) and the marker facts the history protocol relies on "
+            "(get_marker_versions never panics for 1<=s<=n<=E, past markers < start, future markers in (end,E]). The end-to-end "
+            "statement is decided by the correspondence run: every real HistoryProof (Complete and MostRecent n) is compared with the "
+            "model's and the real key_history_verify result list with the specification's version list.",
+    "note": BASE_NOTE + "The composition theorem history_complete over whole histories is not yet an obligation.",
+}
+CLAIMS["C04"] = {
+    "text": "Proved in Lean: uniqueness of the canonical trie (the fact that lets a rebuilt tree be identified by its leaf set). The "
+            "statement itself — every range (s,e) audits against the published root hashes, invalid ranges are refused — is decided by "
+            "the correspondence run over ALL pairs (s,e) of each history, with the real audit_verify as oracle and the model of "
+            "proof generation + auditor compared line by line.",
+    "note": BASE_NOTE + "The theorem audit_complete (frontier_rebuild) is not yet an obligation.",
+}
+CLAIMS["C20"] = {
+    "text": "Tombstoning is modelled (Dir.tombstone) and specified (Spec.historyTomb); proved in Lean is the fact that makes a "
+            "tombstoned entry detectable by the strict verifier (membership_sound_leaf: a leaf digest is only provable with its true "
+            "commitment). The property is decided by the correspondence run with oracles spec.root / spec.lookup / "
+            "spec.history.tomb after every tombstone step and after further publishes.",
+    "note": BASE_NOTE,
+}
 NOT_YET = {}
